@@ -648,6 +648,11 @@ pub(crate) async fn fashare(
 
     // 3 b) Pi broadcasts decommitment for macs.
     let mut dm_k = broadcast(channel, i, n, "fashare ver", &dmvec).await?;
+    // every decommitment consists of the bit and one 16-byte MAC per other party
+    let dm_len = 1 + (n - 1) * 16;
+    if dm_k.iter().flatten().any(|dm| dm.len() != dm_len) {
+        return Err(Error::InvalidLength);
+    }
     dm_k[i] = dmvec;
 
     // 3 c) Compute bi to determine di_bi and send to all parties.
